@@ -40,6 +40,10 @@ GenRulesQuick == {Rule(a, f, AnyIA, n[1], n[2]) : a \in {"accept", "reject", "ad
 GenRulesThorough == GenRules \cup
             {Rule(a, f, IAM(2, 0, 1), n[1], n[2]) : a \in {"accept", "reject"}, f \in {IAM(1, 0, 0), IAM(1, A1, 1)},
                                                     n \in {<<<<Pfx(4, 0, 1), Pfx(4, 12, 3)>>, 1>>, <<<<Pfx(6, 0, 1)>>, 1>>}}
+\* thorough, second generator run: policies of up to three rules over a small alphabet (no tables)
+GenRules3 == {Rule(a, f, AnyIA, n[1], n[2]) : a \in {"accept", "reject"}, f \in {AnyIA, IAM(1, A1, 1), IAM(0, A1, 0)},
+                    n \in {<<<<Pfx(4, 0, 1)>>, 0>>, <<<<Pfx(4, 4, 2), Pfx(4, 12, 3)>>, 1>>}}
+             \cup {Rule("advertise", AnyIA, IAM(2, 0, 1), <<Pfx(4, 8, 1)>>, 0), Rule("reject", AnyIA, IAM(2, A2, 0), <<Pfx(4, 0, 0 - 28)>>, 0)}
 GenPairs == <<<<IA(1, A1), IA(2, A2)>>, <<IA(1, A2), IA(2, A2)>>, <<IA(2, A1), IA(1, A1)>>, <<IA(2, A2), IA(2, A1)>>>>
 GenQueries == <<Pfx(4, 0, 0), Pfx(4, 4, 1), Pfx(6, 0, 0), Pfx(4, 13, 4)>>
 
